@@ -73,12 +73,13 @@ class _Echo(BaseRequestHandler):
 
 
 class Link:
-    def __init__(self, loop, tcp):
+    def __init__(self, loop, tcp, blocking_drain=None):
         self.loop = loop
         self.tcp = tcp
+        self.blocking_drain = blocking_drain        # None | 's2c' | 'c2s': that writer's drain() suspends
         if tcp:
-            self.c2s = Pipe(loop)
-            self.s2c = Pipe(loop)
+            self.c2s = Pipe(loop, auto_drain=blocking_drain != 'c2s')
+            self.s2c = Pipe(loop, auto_drain=blocking_drain != 's2c')
             self.client_tr = TransportTCP(self.s2c.reader, self.c2s)
             self.server_tr = TransportTCP(self.c2s.reader, self.s2c)
         else:
@@ -108,6 +109,12 @@ class Link:
         idle = 0
         for _ in range(rounds):
             self.loop.run_ready()
+            if self.tcp and self.blocking_drain:
+                # the writers' drain() suspends (full kernel buffer): frames pile up in the send queues meanwhile;
+                # each round lets the pending drain of either side complete
+                self.c2s.release_drain()
+                self.s2c.release_drain()
+                self.loop.run_ready()
             moved = self._move('c2s')
             self.loop.run_ready()
             moved += self._move('s2c')
@@ -129,20 +136,21 @@ def c_end_to_end(i1: bool, i2: bool, l1: int, frag: bool, mode: int, pace: bool)
     likewise (i2); payload data/metadata of length classes l1 (first) and L2 (second): 1 / 40 / 100 / 150 bytes with a
     distinct byte pattern per payload; both endpoints fragment at 64 bytes or not at all; link mode 0: message framing,
     1: TCP framing delivered whole, 2: TCP with the first client->server deliveries cut to 1 byte then 70 bytes,
-    3: TCP with the first server->client deliveries cut to 70 bytes then 1 byte; responder publishers emit in a burst or
+    3: TCP with the first server->client deliveries cut to 70 bytes then 1 byte, 4 / 5: TCP delivered whole but the
+    server's / the client's writer drain() suspends until the next link round (its send queue builds up); publishers emit in a burst or
     one element per millisecond.  Every non-empty payload handed in is delivered to the matching handler / subscriber
     exactly once, byte-for-byte (data and metadata), in order within its stream, to no other stream; each caller gets
     the response of its own request; afterwards no stream is left open on either side.
 
-    pre: 0 <= l1 <= 3 and 0 <= mode <= 3 and (L1 is None or l1 == L1) and (MODE is None or mode == MODE) and (PACE is None or pace == PACE)
+    pre: 0 <= l1 <= 3 and 0 <= mode <= 5 and (L1 is None or l1 == L1) and (MODE is None or mode == MODE) and (PACE is None or pace == PACE)
     post: _ in ALLOWED
     """
     l1 = conc(l1, 0, 3)
-    mode = conc(mode, 0, 3)
+    mode = conc(mode, 0, 5)
     i1, i2, frag, pace = concb(i1), concb(i2), concb(frag), concb(pace)
     loop = new_loop()
     with loop:
-        link = Link(loop, tcp=mode != 0)
+        link = Link(loop, tcp=mode != 0, blocking_drain={4: 's2c', 5: 'c2s'}.get(mode))
         if mode == 2:
             link.plan['c2s'] = [1, 1, 1, 70]
         elif mode == 3:
